@@ -326,7 +326,8 @@ BASE = {
 # ---- std::vector<T>::resize (the only std::vector member that is not executed from the IR) -------------
 
 CONTRACTS['std::vector<T>::resize'] = ("vector::resize(n) for n <= capacity(): sets end = begin + n, value-initialises [old size, n); "
-                                       "n > capacity() (reallocation) ends the path with outcome vector-realloc")
+                                       "n > capacity(): ends the path with outcome vector-realloc, or (destination-reuse drivers) moves the elements to a "
+                                       "fresh maximal storage object and frees the old one")
 _ELEM = {'h': 1, 'a': 1, 'c': 1, 'b': 1, 't': 2, 's': 2, 'j': 4, 'i': 4, 'm': 8, 'l': 8, 'y': 8, 'x': 8}
 
 
@@ -351,7 +352,26 @@ def vector_resize(ex, argv, ins):
         newend = simp(n * z3.BitVecVal(sz, 64))
         fits = z3.And(z3.ULE(n, z3.BitVecVal(1 << 32, 64)), z3.ULE(bv(newend, 64), bv(cap.off, 64)))
     if not ex.decide(fits, 'vector-realloc'):
-        raise PathEnd('vector-realloc', **ex._site_info())
+        vmax = ex.world.get('vector_realloc_max')
+        if not vmax:
+            raise PathEnd('vector-realloc', **ex._site_info())
+        # reallocation (enabled by the driver): fresh storage of the stated maximum element count, old elements
+        # moved, the rest value-initialised, old storage freed; capacity becomes exactly n
+        if not ex.decide(z3.ULE(bv(n, 64), z3.BitVecVal(vmax, 64)) if not is_c(n) else n <= vmax, 'vector-too-long'):
+            raise PathEnd('vector-too-long', **ex._site_info())
+        new = Obj('vector.storage.realloc', vmax * sz)
+        ex._materialize(store)
+        oe = bv(end.off, 64)
+        for i in range(new.size):
+            oldc = bv(store.cells[i], 8) if i < store.size else z3.BitVecVal(0, 8)
+            new.cells[i] = simp(z3.If(z3.ULT(z3.BitVecVal(i, 64), oe), oldc, z3.BitVecVal(0, 8)))
+        new.guard = store.guard
+        store.alive = False
+        ex.store_val(Ptr(this.obj, off_add(this.off, 0)), PT, Ptr(new, 0))
+        ex.store_val(Ptr(this.obj, off_add(this.off, 8)), PT, Ptr(new, newend))
+        ex.store_val(Ptr(this.obj, off_add(this.off, 16)), PT, Ptr(new, newend))
+        this.obj.meta['storage'] = new
+        return None
     oe = end.off
     if is_c(oe) and is_c(newend):
         for i in range(oe, min(newend, store.size)):
@@ -413,3 +433,64 @@ BASE.update({
     '_ZNSt7__cxx1112basic_stringIcSt11char_traitsIcESaIcEED1Ev': noop,
 })
 PATTERNS = [(re.compile(r'^_ZNSt6vectorI\wSaI\wEE6resizeEm$'), vector_resize)]
+
+
+# ---- std::unordered_map<K,V>: abstract map model (C17 destination reuse) ----------------------------------
+
+CONTRACTS['std::unordered_map<K,V>::emplace'] = (
+    "abstract map = list of (key, value, present) with pairwise distinct present keys; emplace(k, v) inserts (k, v) iff no present entry has "
+    "key k (the documented contract: no overwrite) and returns (unspecified iterator, inserted); hashing, buckets and rehashing are not modelled")
+_KV = {'h': 8, 'a': 8, 'c': 8, 'b': 8, 't': 16, 's': 16, 'j': 32, 'i': 32, 'm': 64, 'l': 64, 'y': 64, 'x': 64}
+
+
+class UMapModel:
+    def __init__(self, ex, obj, kw, vw, prior):
+        self.obj, self.kw, self.vw = obj, kw, vw
+        self.entries = [(k, v, pr) for (k, v, pr) in prior]   # pr: z3 Bool / python bool
+        self.emplaced = []
+        ex.world[obj.id] = self
+
+    def contains(self, key):
+        return z3.Or(*[z3.And(pr, bv(k, self.kw) == bv(key, self.kw)) for k, v, pr in self.entries]) if self.entries else z3.BoolVal(False)
+
+
+def umap_emplace(ex, argv, ins):
+    this, kp, vp = argv[0], argv[1], argv[2]
+    w = _world(ex, this, UMapModel)
+    k = ex.load_val(kp, ('int', w.kw))
+    v = ex.load_val(vp, ('int', w.vw))
+    absent = simp(z3.Not(w.contains(k)))
+    if isinstance(absent, bool):
+        absent = z3.BoolVal(absent)
+    w.entries.append((k, v, absent))
+    w.emplaced.append((k, v, absent))
+    return [NULL, simp(z3.If(absent, z3.BitVecVal(1, 8), z3.BitVecVal(0, 8)))]
+
+
+PATTERNS.append((re.compile(r'^_ZNSt13unordered_mapI\w\wSt4hashI\wESt8equal_toI\wESaISt4pairIK\w\wEEE7emplaceI'), umap_emplace))
+
+
+def umap_clear(ex, argv, ins):
+    w = _world(ex, argv[0], UMapModel)
+    w.entries = []
+    return None
+
+
+def umap_size(ex, argv, ins):
+    w = _world(ex, argv[0], UMapModel)
+    n = z3.BitVecVal(0, 64)
+    for k, v, pr in w.entries:
+        n = n + z3.If(pr, z3.BitVecVal(1, 64), z3.BitVecVal(0, 64))
+    return simp(n)
+
+
+def umap_noop(ex, argv, ins):
+    _world(ex, argv[0], UMapModel)
+    return None
+
+
+CONTRACTS['std::unordered_map<K,V>::clear/size/reserve'] = "abstract map: clear() removes every entry; size() counts present entries; reserve()/rehash() no-op"
+_UM = r'^_ZN?K?St13unordered_mapI\w\wSt4hashI\wESt8equal_toI\wESaISt4pairIK\w\wEEE'
+PATTERNS.append((re.compile(_UM + r'5clearEv$'), umap_clear))
+PATTERNS.append((re.compile(_UM + r'4sizeEv$'), umap_size))
+PATTERNS.append((re.compile(_UM + r'(7reserveEm|6rehashEm)$'), umap_noop))
